@@ -240,32 +240,64 @@ def rule_r3(ck, prog, S):
     sq, dq = prog.enumconst.get("SCPI_TOKEN_SINGLE_QUOTE_PROGRAM_DATA"), prog.enumconst.get("SCPI_TOKEN_DOUBLE_QUOTE_PROGRAM_DATA")
     asg = [n for n, t in C.stores(g) if t.get("path") == "quote" and n.get("op") == "="]
     probs = []
-    if len(asg) != 1:
+    want = {sq: ord("'"), dq: ord('"')}
+
+    def pinned_type(ps):
+        """the token classes a path is restricted to by its facts on param.type (None: unrestricted)"""
+        vals = None
+        for a, pol in ps.facts:
+            if isinstance(pol, tuple) and pol[0] == "case" and (a.get("path") or "") == "param.type":
+                vs = set(range(pol[1], pol[2] + 1)) if pol[2] - pol[1] < 64 else {pol[1], pol[2], None}
+                vals = vs if vals is None else (vals & vs)
+            elif not isinstance(pol, tuple) and pol and a.k == "BinaryOperator" and a.get("op") == "==" and \
+                    (a.child(0).strip_all_casts().get("path") or "").endswith(".type") and C.const_of(a.child(1)) is not None:
+                vs = {C.const_of(a.child(1))}
+                vals = vs if vals is None else (vals & vs)
+        return vals
+    if not asg:
         probs.append("the delimiter is not selected from the token class")
     else:
-        e = asg[0].child(1).strip_all_casts()
-        okq = False
-        if e.k == "ConditionalOperator":
-            c = e.child(0).strip_all_casts()
-            if c.k == "BinaryOperator" and c.get("op") == "==" and (c.child(0).strip_all_casts().get("path") or "").endswith(".type"):
-                k = C.const_of(c.child(1))
-                t_, e_ = C.const_of(e.child(1)), C.const_of(e.child(2))
-                if (k == sq and t_ == ord("'") and e_ == ord('"')) or (k == dq and t_ == ord('"') and e_ == ord("'")):
-                    okq = True
-        if not okq:
-            probs.append("delimiter selection `%s` does not map SINGLE_QUOTE to ' and DOUBLE_QUOTE to \"" % e.src)
-        # only reached for the two string classes
-        okc = True
+        sums_g = P.summarize(g, max_visits=2)
         seen_store = False
-        for ps in P.summarize(g, max_visits=2):
-            if any(e[0] == "store" and e[1] is asg[0] for e in ps.events):
-                seen_store = True
-                cv = ps.casevals.get("param.type")
-                lab = [pol for a, pol in ps.facts if isinstance(pol, tuple) and pol[0] == "case" and (a.get("path") or "") == "param.type"]
-                if not lab or not all(l_[1] in (sq, dq) and l_[2] in (sq, dq) for l_ in lab):
-                    okc = False
-        if not seen_store or not okc:
+        for one in asg:
+            e = one.child(1).strip_all_casts()
+            cond_form = False
+            if e.k == "ConditionalOperator":
+                okq = False
+                c = e.child(0).strip_all_casts()
+                if c.k == "BinaryOperator" and c.get("op") == "==" and (c.child(0).strip_all_casts().get("path") or "").endswith(".type"):
+                    k = C.const_of(c.child(1))
+                    t_, e_ = C.const_of(e.child(1)), C.const_of(e.child(2))
+                    if (k == sq and t_ == ord("'") and e_ == ord('"')) or (k == dq and t_ == ord('"') and e_ == ord("'")):
+                        okq = True
+                if not okq:
+                    probs.append("delimiter selection `%s` does not map SINGLE_QUOTE to ' and DOUBLE_QUOTE to \"" % e.src)
+                cond_form = True
+            elif C.const_of(e) is None:
+                probs.append("delimiter selection `%s` is not decided by the token class" % e.src)
+                continue
+            # the store is only reached for the string class(es) it is right for
+            for ps in sums_g:
+                if any(ev[0] == "store" and ev[1] is one for ev in ps.events):
+                    seen_store = True
+                    vals = pinned_type(ps)
+                    if cond_form:
+                        if not vals or not vals <= {sq, dq}:
+                            probs.append("the copy loop is not restricted to the two string token classes")
+                    elif not vals or len(vals) != 1 or want.get(next(iter(vals))) != C.const_of(e):
+                        probs.append("delimiter %s is selected on a path that is not restricted to the token class it delimits" % e.src)
+        if not seen_store:
             probs.append("the copy loop is not restricted to the two string token classes")
+        # every path that copies a character has selected the delimiter before
+        for ps in sums_g:
+            idx_q = next((i for i, ev in enumerate(ps.events) if ev[0] == "store" and any(ev[1] is one for one in asg)), None)
+            idx_c = next((i for i, ev in enumerate(ps.events) if ev[0] == "store" and C.store_target(ev[1]).k == "ArraySubscriptExpr"
+                          and C.store_target(ev[1]).child(0).strip_all_casts().get("path") == g.params[1]["name"]
+                          and C.const_of(ev[1].child(1)) is None), None)
+            if idx_c is not None and g.calls() and (idx_q is None or idx_q > idx_c) and \
+                    any("quote" in (x.get("path") or "") for b_ in g.blocks.values() if b_.cond is not None for x in b_.cond.walk()):
+                probs.append("a path copies text before the delimiter is selected")
+        probs = sorted(set(probs))
     S2 = K.summaries(prog)
     guarded = False
     hosts = [g] + [prog.fn(c.get("callee")) for c in g.calls() if prog.fn(c.get("callee") or "") is not None and prog.fn(c.get("callee")).static]
@@ -275,6 +307,15 @@ def rule_r3(ck, prog, S):
         qnames = {"quote"} | {p_["name"] for p_ in h.params if p_["type"].get("ct") == "char"}
         for n, t in C.stores(h):
             is_step = (n.k == "UnaryOperator" and n.get("op") == "++") or (n.get("op") == "+=" and C.const_of(n.child(1)) == 1)
+            if n.get("op") == "+=" and t.get("path") and n.child(1).strip_all_casts().k == "ConditionalOperator":
+                # one step of `cond ? 2 : 1`: the guard is the condition of the conditional itself
+                ce = n.child(1).strip_all_casts()
+                a = ce.child(0).strip_all_casts()
+                if a.k == "BinaryOperator" and a.get("op") == "==" and C.const_of(ce.child(1)) == 2 and C.const_of(ce.child(2)) == 1:
+                    sides = [a.child(0).strip_all_casts(), a.child(1).strip_all_casts()]
+                    if any(x.get("path") in qnames for x in sides) and any(("[%s]" % t["path"]) in (x.get("path") or "") for x in sides):
+                        guarded = True
+                continue
             if not is_step or not t.get("path"):
                 continue
             iv = t["path"]
